@@ -46,7 +46,13 @@ impl MatcherBuilder {
 
         let enable_unicode = cfg!(feature = "unicode");
         let dfa = DFA::builder()
-            .configure(DFA::config().match_kind(MatchKind::All))
+            .configure(
+                DFA::config()
+                    .match_kind(MatchKind::All)
+                    // Large terminals (e.g. `a{100000}`) need more than the default cache
+                    // capacity; use the minimum they require instead of failing in `new()`.
+                    .skip_cache_capacity_check(true),
+            )
             .syntax(
                 SyntaxConfig::new()
                     .unicode(enable_unicode)
